@@ -201,39 +201,155 @@ fn der_legs(v: &mut V, sig: &Signature, r: &BigUint, s: &BigUint) {
     }
 }
 
-/// Compact encoding with every recovery id and both compression markers.
+fn header_of(recid: u8, comp: bool) -> u8 {
+    27 + (recid & 3) + if comp { 4 } else { 0 }
+}
+
+/// One way of handing recovery data to `to_compact_bytes` / `to_compact_hex`.
+#[derive(Clone, Copy)]
+enum Supplied {
+    Nothing,
+    /// `RecoveryInfo::new(y_odd, x_reduced, compressed)`
+    New(bool, bool, bool),
+    /// `RecoveryInfo::from_byte(recid, compressed)`
+    FromByte(u8, bool),
+}
+
+impl Supplied {
+    /// None, the 8 (y_odd, x_reduced, compressed) combinations, the 8 (recid, compressed) combinations.
+    fn all() -> Vec<Supplied> {
+        let mut v = vec![Supplied::Nothing];
+        for c in [false, true] {
+            for x in [false, true] {
+                for y in [false, true] {
+                    v.push(Supplied::New(y, x, c));
+                }
+            }
+        }
+        for c in [false, true] {
+            for id in 0..4u8 {
+                v.push(Supplied::FromByte(id, c));
+            }
+        }
+        v
+    }
+
+    fn info(&self) -> Option<RecoveryInfo> {
+        match *self {
+            Supplied::Nothing => None,
+            Supplied::New(y, x, c) => Some(RecoveryInfo::new(y, x, c)),
+            Supplied::FromByte(id, c) => Some(RecoveryInfo::from_byte(id, c)),
+        }
+    }
+
+    /// The header byte the statement's arithmetic gives: 27 + (x_reduced << 1 | y_odd) + 4 * compressed.
+    fn header(&self) -> Option<u8> {
+        match *self {
+            Supplied::Nothing => None,
+            Supplied::New(y, x, c) => Some(header_of((x as u8) << 1 | y as u8, c)),
+            Supplied::FromByte(id, c) => Some(header_of(id, c)),
+        }
+    }
+
+    fn describe(&self) -> String {
+        match *self {
+            Supplied::Nothing => "None".into(),
+            Supplied::New(y, x, c) => format!("Some(RecoveryInfo::new(y_odd={}, x_reduced={}, compressed={}))", y, x, c),
+            Supplied::FromByte(id, c) => format!("Some(RecoveryInfo::from_byte({}, {}))", id, c),
+        }
+    }
+}
+
+/// The compact serialisation matrix of ONE signature object: `to_compact_bytes(x)` for x = None and every
+/// explicit `RecoveryInfo`, whatever recovery data the object already carries (`stored` = the header byte
+/// that describes it; None for DER-parsed objects).
+///   * explicit info   -> header = 27 + recid + 4*compressed of the info that was passed,
+///   * None, stored    -> header = stored,
+///   * None, no stored -> the statement does not fix the header: it only has to parse back (counted),
+/// r || s untouched, `to_compact_hex` the hex of the same bytes, and `from_compact_bytes` of the result hands back
+/// the same r, s, recovery id and marker (observed through `to_compact_bytes(None)`).
+/// `after(v, supplied, header, parsed-back object)` runs for every combination that got that far.
+fn compact_matrix(v: &mut V, origin: &str, obj: &Signature, stored: Option<u8>, r32: &[u8; 32], s32: &[u8; 32], after: &mut dyn FnMut(&mut V, Supplied, u8, &Signature)) {
+    let stored_txt = stored.map(|h| format!("header {}", h)).unwrap_or_else(|| "none".into());
+    let sups = Supplied::all();
+    let outs: Vec<L<Vec<u8>>> = sups.iter().map(|sup| call_plain(v.acc, || obj.to_compact_bytes(sup.info()))).collect();
+    // root-cause discrimination: an object that answers EVERY explicit info with its own stored header ignores the argument;
+    // anything else that is wrong is header arithmetic / field mix-up
+    let ignores_argument = match stored {
+        Some(st) => sups.iter().zip(&outs).filter(|(sup, _)| sup.header().is_some()).all(|(_, o)| matches!(o, L::Ok(b) if b.first() == Some(&st))),
+        None => false,
+    };
+    // at most one report per key and object: the 17 ways of supplying the data are one defect, not 17
+    let mut reported: Vec<&'static str> = vec![];
+    for (sup, out) in sups.iter().zip(outs) {
+        let what = format!("{} (recovery data it carries: {}).to_compact_bytes({})", origin, stored_txt, sup.describe());
+        v.acc.traces += 1;
+        let cb = match out {
+            L::Ok(b) => b,
+            L::Err(_) => unreachable!(),
+            L::Panic(p) => {
+                v.bad(&format!("to_compact_bytes/kind=panic@{}", panic_site(&p)), format!("{}: {}", what, p));
+                continue;
+            }
+        };
+        if cb.len() != 65 || cb[1..33] != r32[..] || cb[33..65] != s32[..] {
+            if !reported.contains(&"rs") {
+                reported.push("rs");
+                v.bad("to_compact_bytes/kind=wrong-result", format!("{}: compact bytes {} do not carry r={} s={}", what, hx(&cb), hx(r32), hx(s32)));
+            }
+            continue;
+        }
+        match (sup.header(), stored) {
+            (Some(w), _) if cb[0] != w => {
+                let key = if ignores_argument { "to_compact_bytes/explicit-info/kind=ignored-in-favour-of-stored-recovery-data" } else { "to_compact_bytes/explicit-info/kind=wrong-result" };
+                if !reported.contains(&key) {
+                    reported.push(key);
+                    v.bad(key, format!("{}: header byte {} expected {}", what, cb[0], w));
+                }
+                continue;
+            }
+            (None, Some(w)) if cb[0] != w => {
+                v.bad("compact-roundtrip/recovery-data/kind=wrong-result", format!("{}: header byte {} expected the stored {}", what, cb[0], w));
+                continue;
+            }
+            (None, None) => v.acc.bump(&format!("no_recovery_data_anywhere_header_{}", cb[0]), 1),
+            _ => {}
+        }
+        v.acc.outcome(&[b'x', stored.is_some() as u8, cb[0]]);
+        let twin = call_plain(v.acc, || obj.to_compact_hex(sup.info()).into_bytes());
+        v.expect_bytes("to_compact_hex", &what, twin, hex::encode(&cb).as_bytes());
+        let p = call(v.acc, || Signature::from_compact_bytes(&cb));
+        if let Some(back) = v.expect_sig("from_compact_bytes", &format!("from_compact_bytes({}) = output of {}", hx(&cb), what), p, r32, s32) {
+            let again = call_plain(v.acc, || back.to_compact_bytes(None));
+            v.expect_bytes("compact-roundtrip/recovery-data", &format!("to_compact_bytes(None) of from_compact_bytes({}) = output of {}", hx(&cb), what), again, &cb);
+            after(v, *sup, cb[0], &back);
+        }
+    }
+}
+
+/// Compact encoding with every recovery id and both compression markers: objects that carry each of the 8 headers
+/// (parsed from compact bytes) and objects that carry none (parsed from DER and from DER || flag), each through the
+/// whole `compact_matrix`.
 fn compact_legs(v: &mut V, r: &BigUint, s: &BigUint) {
     let (r32, s32) = (secp::be32(r), secp::be32(s));
     let der = secp::der_encode(r, s);
-    // a signature object without recovery data, to exercise to_compact_bytes(Some(info))
     let mut flagged = der.clone();
     flagged.push(0x41);
-    let bare = match call(v.acc, || Signature::from_der(&flagged)) {
-        L::Ok(x) => Some(x),
-        _ => match call(v.acc, || Signature::from_der(&der)) {
-            L::Ok(x) => Some(x),
-            _ => None,
-        },
-    };
+    let mut nothing = |_: &mut V, _: Supplied, _: u8, _: &Signature| {};
     for h in 27u8..=34 {
-        let recid = (h - 27) & 3;
-        let comp = h >= 31;
         let mut cb = vec![h];
         cb.extend_from_slice(&r32);
         cb.extend_from_slice(&s32);
         let p = call(v.acc, || Signature::from_compact_bytes(&cb));
         if let Some(sig) = v.expect_sig("from_compact_bytes", &format!("from_compact_bytes({})", hx(&cb)), p, &r32, &s32) {
-            let again = call_plain(v.acc, || sig.to_compact_bytes(None));
-            v.expect_bytes("compact-roundtrip/recovery-data", &format!("to_compact_bytes(None) of from_compact_bytes({})", hx(&cb)), again, &cb);
+            compact_matrix(v, "compact-parsed object", &sig, Some(h), &r32, &s32, &mut nothing);
         }
-        match &bare {
-            Some(b) => {
-                let a = call_plain(v.acc, || b.to_compact_bytes(Some(RecoveryInfo::new(recid & 1 != 0, recid & 2 != 0, comp))));
-                v.expect_bytes("to_compact_bytes/explicit-info", &format!("RecoveryInfo::new(y_odd={}, x_reduced={}, compressed={})", recid & 1, recid >> 1, comp), a, &cb);
-                let a = call_plain(v.acc, || b.to_compact_bytes(Some(RecoveryInfo::from_byte(recid, comp))));
-                v.expect_bytes("to_compact_bytes/explicit-info", &format!("RecoveryInfo::from_byte({}, {})", recid, comp), a, &cb);
-            }
-            None => v.acc.bump("explicit_recovery_info_leg_skipped_no_der_parse", 1),
+    }
+    // signature objects without recovery data (failures to parse are reported by der_legs)
+    for (origin, bytes) in [("DER-parsed object", &der), ("DER||41-parsed object", &flagged)] {
+        match call(v.acc, || Signature::from_der(bytes)) {
+            L::Ok(bare) => compact_matrix(v, origin, &bare, None, &r32, &s32, &mut nothing),
+            _ => v.acc.bump("explicit_recovery_info_leg_skipped_no_der_parse", 1),
         }
     }
 }
@@ -293,7 +409,7 @@ fn signer_name(s: u64) -> String {
     }
 }
 
-fn libsig_case(case: &Case, acc: &mut Acc, row: &KeyRow, comp: bool, msg: &[u8], hash: u64, signer: u64) {
+fn libsig_case(case: &Case, acc: &mut Acc, row: &KeyRow, comp: bool, msg: &[u8], hash: u64, signer: u64, all_stored_headers: bool) {
     acc.evaluations += 1;
     let input = || json!({"key": row.hex, "compressed": comp, "message": hx(msg), "message_len": msg.len(), "hash": if hash == 0 {"sha256"} else {"sha256d"}, "signer": signer_name(signer)});
     let sh = lib_hash(hash);
@@ -385,6 +501,48 @@ fn libsig_case(case: &Case, acc: &mut Acc, row: &KeyRow, comp: bool, msg: &[u8],
         v.expect_bytes("recover_public_key", &format!("{}: signer's key in the recorded form", label), a, want_key);
         let a = call(v.acc, || sg.recover_public_key_from_digest(&z32).and_then(|k| k.to_bytes()));
         v.expect_bytes("recover_public_key_from_digest", &format!("{}: signer's key in the recorded form", label), a, want_key);
+    }
+    // ---- the whole compact matrix on every kind of object the library hands out for this signature; where the
+    // re-issued compact bytes keep the signer's recovery id, recovery must return the signer's key in the form
+    // the NEW marker records (signing-key compression x recorded marker)
+    let der_obj = match call(v.acc, || Signature::from_der(&sig.to_der_bytes())) {
+        L::Ok(d) => Some(d),
+        _ => {
+            v.acc.bump("der_parsed_object_unavailable_for_compact_matrix", 1);
+            None
+        }
+    };
+    let mut origins: Vec<(String, Signature, Option<u8>)> = vec![("signed object".into(), sig.clone(), Some(h))];
+    if let Some(p) = &parsed {
+        origins.push(("compact-parsed object".into(), p.clone(), Some(h)));
+    }
+    if let Some(d) = der_obj {
+        origins.push(("DER-parsed object".into(), d, None));
+    }
+    if all_stored_headers {
+        for h2 in (27u8..=34).filter(|x| *x != h) {
+            let mut cb2 = cb.clone();
+            cb2[0] = h2;
+            let p = call(v.acc, || Signature::from_compact_bytes(&cb2));
+            if let Some(o) = v.expect_sig("from_compact_bytes", &format!("from_compact_bytes({})", hx(&cb2)), p, &r32, &s32) {
+                origins.push((format!("object parsed from the signature's compact bytes with header {}", h2), o, Some(h2)));
+            }
+        }
+    }
+    for (origin, obj, stored) in &origins {
+        let mut after = |v: &mut V, sup: Supplied, h2: u8, back: &Signature| {
+            if (h2 - 27) & 3 != recid || matches!(sup, Supplied::FromByte(..)) {
+                return;
+            }
+            let a = call(v.acc, || back.recover_public_key_from_digest(&z32).and_then(|k| k.to_bytes()));
+            v.expect_bytes(
+                "recover_public_key_from_digest",
+                &format!("{}.to_compact_bytes({}) parsed back (header {}): signer's key in the form that header records", origin, sup.describe(), h2),
+                a,
+                &row.enc[(h2 >= 31) as usize],
+            );
+        };
+        compact_matrix(&mut v, origin, obj, *stored, &r32, &s32, &mut after);
     }
     // ---- a different message: error or a different key; the reference computes what it should be
     let sg = objs.last().unwrap().1;
@@ -897,6 +1055,7 @@ pub fn spaces(tier: Tier) -> Vec<Space> {
     let rows = Arc::new(key_rows(nk as usize));
     let msgs = Arc::new(messages(tier));
     let nm = msgs.len() as u64;
+    let all_stored = tier.is_thorough();
     v.push(Space::new("libsig", nk * 2 * nm * 2 * nsign, move |case, acc| {
         let c = coords(case.idx, &[nk, 2, nm, 2, nsign]);
         let row = &rows[c[0] as usize];
@@ -904,7 +1063,7 @@ pub fn spaces(tier: Tier) -> Vec<Space> {
         if case.idx % 997 == 0 {
             acc.sample(case.idx / 997, || json!({"space": "libsig", "idx": case.idx, "key": row.hex, "compressed": c[1] == 1, "message": hx(msg), "hash": if c[3] == 0 {"sha256"} else {"sha256d"}, "signer": signer_name(c[4])}));
         }
-        libsig_case(case, acc, row, c[1] == 1, msg, c[3], c[4]);
+        libsig_case(case, acc, row, c[1] == 1, msg, c[3], c[4], all_stored);
     }));
     // 2. synthetic (r, s) injected through from_compact_bytes
     let ra = Arc::new(r_alphabet(tier));
@@ -954,7 +1113,7 @@ pub fn spaces(tier: Tier) -> Vec<Space> {
 
 fn run(ctx: &Ctx) -> Report {
     let mut r = Report::new(
-        "full products: (libsig) keys x {compressed, uncompressed} x messages x {sha256, sha256d} x signing entry points (deterministic k, deterministic k reversed, explicit nonces): DER, DER||each of 14 flag bytes, SighashSignature to_bytes/from_bytes, compact form, recovery of the signer from message and from digest (on the signed and on the compact-parsed object), recovery for three altered messages compared with the reference recovery; (synthetic) r-alphabet x s-alphabet injected through from_compact_bytes: the same DER legs plus compact bytes for 4 recovery ids x 2 compression markers and explicit RecoveryInfo; (compact-headers) header byte 0..=255 x in-range and out-of-range (r, s); (malformed-der) every listed single deviation of every seed encoding through Signature::from_der, from_hex_der and SighashSignature::from_bytes. Non-trivial = a signature object was obtained and compared field by field, or a must-reject input was presented; distinct by construction.",
+        "full products: (libsig) keys x {compressed, uncompressed} x messages x {sha256, sha256d} x signing entry points (deterministic k, deterministic k reversed, explicit nonces): DER, DER||each of 14 flag bytes, SighashSignature to_bytes/from_bytes, compact form, recovery of the signer from message and from digest (on the signed and on the compact-parsed object), the compact matrix (below) on the signed, the compact-parsed and the DER-parsed object (thorough: also on objects parsed from the signature's compact bytes under each of the 7 other headers) with recovery from every re-issued compact form that keeps the signer's recovery id (signing-key compression x recorded marker), recovery for three altered messages compared with the reference recovery; (synthetic) r-alphabet x s-alphabet injected through from_compact_bytes: the same DER legs plus the compact matrix on objects parsed from compact bytes under each of the 8 headers and on objects parsed from DER and DER||41; compact matrix of one object = to_compact_bytes/to_compact_hex with None, the 8 RecoveryInfo::new(y_odd, x_reduced, compressed) and the 8 RecoveryInfo::from_byte(recid, compressed), i.e. (recovery data the object carries: 8 headers or none) x (recovery data supplied: none or 8 headers, two constructors), each output parsed back with from_compact_bytes and re-serialised; (compact-headers) header byte 0..=255 x in-range and out-of-range (r, s); (malformed-der) every listed single deviation of every seed encoding through Signature::from_der, from_hex_der and SighashSignature::from_bytes. Non-trivial = a signature object was obtained and compared field by field, or a must-reject input was presented; distinct by construction.",
     );
     let tier = ctx.tier;
     let (nk, nsign) = dims_libsig(tier);
@@ -969,10 +1128,14 @@ fn run(ctx: &Ctx) -> Report {
         "trailing_byte_alphabet_for_pairs": trailing_alphabet(tier).iter().map(|f| format!("0x{:02x}", f)).collect::<Vec<_>>(),
         "header_pairs": header_pairs().iter().map(|x| x.0.clone()).collect::<Vec<_>>(),
         "deviation_bound": if tier.is_thorough() { 2 } else { 1 },
+        "compact_matrix_supplied": Supplied::all().iter().map(|x| x.describe()).collect::<Vec<_>>(),
+        "compact_matrix_objects_synthetic": ["compact-parsed under header 27..=34 (8)", "DER-parsed", "DER||41-parsed"],
+        "compact_matrix_objects_libsig": if tier.is_thorough() { vec!["signed", "compact-parsed (own header)", "DER-parsed", "compact-parsed under each of the 7 other headers"] } else { vec!["signed", "compact-parsed (own header)", "DER-parsed"] },
     });
     r.assumptions.push("Signature::from_der accepts two forms, pure DER and DER followed by exactly one of the 14 sighash flag bytes; an input is required to be rejected only if, under both readings, it has wrong lengths, trailing bytes, or a zero or >= n scalar. Negative integers (missing 00 pad), superfluous 00 pads, wrong tags and long-form lengths are recorded in counters, not judged".into());
     r.assumptions.push("SighashSignature has no accessors: its parse is observed through re-serialisation (from_bytes(x).to_bytes() == x)".into());
     r.assumptions.push("compact header bytes outside 27..=34 and compact scalars outside [1, n-1] are not required to be rejected by the statement: acceptance is counted (compact_header_outside_27_34_accepted), panics on header bytes < 27 are counted as panics_left_to_C09; inputs shorter than 65 bytes are never presented (C09)".into());
+    r.assumptions.push("to_compact_bytes(Some(info)) must serialise the info that was passed (header = 27 + (x_reduced << 1 | y_odd) + 4 * compressed) whether or not the object carries recovery data of its own, and to_compact_bytes(None) the data the object carries; for to_compact_bytes(None) on an object without recovery data (DER-parsed) the statement fixes no header: the output only has to carry r, s and parse back, the header is counted (no_recovery_data_anywhere_header_N). RecoveryInfo::from_byte is only given recovery ids 0..=3. Recovery from re-issued compact bytes is judged only when they keep the signer's recovery id".into());
     r.assumptions.push("for an altered message the statement allows an error or any key other than the signer's; agreement of the returned key with the reference recovery is counted, not judged".into());
     r.assumptions.push("failures of the signing call itself are C05's subject: such cases are skipped and counted".into());
     run_spaces(ctx, &mut r, spaces(tier));
